@@ -17,6 +17,17 @@ fn main() {
         eprintln!("usage: harness <stream> <quick|thorough> <seed> <outdir>");
         std::process::exit(2);
     }
+    if args[1] == "time-magic" {
+        let t = std::time::Instant::now();
+        let b = chess_lookup_generator::bishop_moves();
+        eprintln!("bishop: {} entries, {} words, {:?}", b.entries.len(), b.data.len(), t.elapsed());
+        if args[2] == "rook" {
+            let t = std::time::Instant::now();
+            let r = chess_lookup_generator::rook_moves();
+            eprintln!("rook: {} entries, {} words, {:?}", r.entries.len(), r.data.len(), t.elapsed());
+        }
+        return;
+    }
     if args[1] == "gen-materoots" {
         engine::gen_mate_roots(args[2].parse().unwrap(), args[3].parse().unwrap(), &args[4]);
         return;
@@ -60,6 +71,7 @@ fn main() {
         "glue11" => glue::glue11(&mut out, thorough),
         "glue17" => glue::glue17(&mut out, thorough),
         "bookgen" => tables::bookgen(&mut out, thorough),
+        "magicgen" => tables::magicgen(&mut out, thorough),
         "c15" => engine::c15(&mut out, thorough, args.get(5).map(|s| s.as_str()).unwrap_or("")),
         _ => {
             eprintln!("unknown stream {stream}");
